@@ -1,9 +1,9 @@
 """Manifest metadata (tools/gen_manifest.py turns it into MANIFEST.json)."""
-HOOK_COMMITS = []
+HOOK_COMMITS = ['621a573']
 ENGINES = [
-    dict(name='verus-extract', path='/verif/vlib', serves_properties=['C04', 'C05', 'C06', 'C08', 'C12', 'C14', 'C15', 'C20'],
+    dict(name='verus-extract', path='/verif/vlib', serves_properties=['C04', 'C05', 'C06', 'C08', 'C12', 'C14', 'C15', 'C17', 'C20'],
          kind_free_text='Verus 0.2026.09.13 on functions extracted mechanically from /repo on every run, contracts injected from /verif/units/<unit>/unit.rs'),
-    dict(name='kani-contracts', path='/verif/kani', serves_properties=['C01', 'C02', 'C03', 'C06', 'C15', 'C20'],
+    dict(name='kani-contracts', path='/verif/kani', serves_properties=['C01', 'C02', 'C03', 'C06', 'C15', 'C17', 'C20'],
          kind_free_text='Kani 0.68 function contracts (proof_for_contract) and loop-free full-domain harnesses on the real crates of /repo (path dependencies), CBMC 6.11'),
 ]
 NOTES = ('Contract-based deductive verification. exit 0 = all obligations discharged; exit 1 = VIOLATION; '
@@ -13,6 +13,12 @@ NOT_APPLICABLE = {
     'C13': 'bus state is BTreeMap+VecDeque behind Rc<RefCell> driven by std iterator closures: no Verus model, Kani measured >10 min for 2 outputs x 2 ops (DESIGN.md §7)',
 }
 CHECKS = {
+    'C17': dict(
+        engine='verus-extract', category='proof',
+        technique='Verus over idealised reals (Step/Phase/Sine/Saw/Square contracts, congruence lemma) + Kani bit-precise full-domain harnesses (noise for every seed; phase wrap, saw, square from every phase state via a guarded hook)',
+        text='Phase::next_phase(_wrapped_to) is verified to yield the current phase and advance it by exactly one step of its step source, wrapped into [0, rem) and congruent to phase + step (real modulus); Hz::step consumes exactly one frequency frame and yields frequency / rate; Sine/Saw/Square yield sin(2 pi p), 1 - 2p, +-1 by half-cycle and advance the phase as Phase does; lemma_phase_accumulates: the phase after n frames is the sum of steps mod 1. Kani proves bit-precisely that the noise output is within [-1,1] and never panics for every u64 seed, that the wrapped phase stays in [0,1) from every phase and every finite step, that saw is in (-1,1] and square is +-1 by half-cycle.',
+        note='Phase arithmetic PROVED OVER EXACT REALS (T4) with the wrapped range also proved bit-precisely. sin assumed to be the sine. NOT claimed: simplex noise amplitude; purity of the noise is bounded to 768 seeds (c17_b_noise_pure).',
+    ),
     'C20': dict(
         engine='verus-extract', category='proof',
         technique='Verus: size_hint contract against the closed-form chunk count, inductive lemma closed form == recurrence, Hann/Rectangle shapes over idealised reals; Kani: next() slice arithmetic for every usize triple',
